@@ -30,6 +30,14 @@ Section RingFacts.
     detA3 O (a 0 0) (a 0 1) (a 0 2) (a 1 0) (a 1 1) (a 1 2) (a 2 0) (a 2 1) (a 2 2) = leibniz 3 a.
   Proof. unfold detA3, leibniz, signed. cbn. ring. Qed.
 
+  (* the isoparametric mapping (quadrilaterals, hexahedra, prisms, curved cells) uses the same determinants
+     of its point-wise Jacobian J *)
+  Lemma iso_detDF_leibniz a :
+    iso_detDF1 O (a 0 0) = leibniz 1 a /\
+    iso_detDF2 O (a 0 0) (a 0 1) (a 1 0) (a 1 1) = leibniz 2 a /\
+    iso_detDF3 O (a 0 0) (a 0 1) (a 0 2) (a 1 0) (a 1 1) (a 1 2) (a 2 0) (a 2 1) (a 2 2) = leibniz 3 a.
+  Proof. unfold iso_detDF1, iso_detDF2, iso_detDF3, leibniz, signed. cbn. repeat split; ring. Qed.
+
   (* ---------- determinant of a simplex from its vertices: v i k = coordinate i of local vertex k *)
   Definition simplex_det1 (v : nat -> nat -> R) : R := detA1 O (gen_A O v 0 0).
   Definition simplex_det2 (v : nat -> nat -> R) : R :=
@@ -80,6 +88,13 @@ Section RingFacts.
     = dot3 b00 b10 b20 b00 b10 b20 * dot3 b01 b11 b21 b01 b11 b21
       - dot3 b00 b10 b20 b01 b11 b21 * dot3 b00 b10 b20 b01 b11 b21.
   Proof. unfold detB3_sq, dot3. ring. Qed.
+
+  Theorem iso_detDG_gram b00 b01 b10 b11 b20 b21 :
+    iso_detDG2_sq O b00 b10 = b00 * b00 + b10 * b10 /\
+    iso_detDG3_sq O b00 b01 b10 b11 b20 b21
+    = dot3 b00 b10 b20 b00 b10 b20 * dot3 b01 b11 b21 b01 b11 b21
+      - dot3 b00 b10 b20 b01 b11 b21 * dot3 b00 b10 b20 b01 b11 b21.
+  Proof. unfold iso_detDG2_sq, iso_detDG3_sq, dot3. split; ring. Qed.
 
   Definition facet_sq2 (v : nat -> nat -> R) : R := detB2_sq O (gen_B O v 0 0) (gen_B O v 1 0).
   Definition facet_sq3 (v : nat -> nat -> R) : R :=
